@@ -135,6 +135,18 @@ int main(void) {
 		battery(&pm, t, n, b, bn, codes, 32);
 		watching = 0;
 		long libc_custom = libc_calls; int live = pool_live(), badf = bad;
+		/* (1b) the same battery through a manager COMPLETED from a backend that has only malloc and free
+		 * (uriCompleteMemoryManager): the backend, too, must see only its own pointers, each exactly once */
+		{
+			UriMemoryManager be = { pm_malloc, NULL, NULL, NULL, pm_free, NULL }, cm;
+			memset(&cm, 0, sizeof cm);
+			if (uriCompleteMemoryManager(&cm, &be) == URI_SUCCESS) {
+				pool_reset(); libc_calls = 0; watching = 1;
+				battery(&cm, t, n, b, bn, codes, 32);
+				watching = 0;
+				libc_custom += libc_calls; live += pool_live(); badf += bad;
+			} else badf += 1000;
+		}
 		/* (2) each incomplete manager: code 10 from the first call on, nothing allocated */
 		int incomplete_bad = 0;
 		for (int miss = 0; miss < 5; miss++) {
